@@ -36,7 +36,8 @@ FUNCTIONS = [
 ]
 BOUNDS = {
     "quick": "kernels (transformer_util): P<=3 pixels, K=2 baselines, S=2 columns; pixel coordinates in radians, baselines, image, signed mapping "
-             "matrix and complex visibilities ALL symbolic reals (cos/sin abstracted, see STUBS); one merged path covers every sign pattern of the matrix. "
+             "matrix and complex visibilities ALL symbolic reals (cos/sin abstracted, see STUBS); one merged path covers every sign pattern of the matrix; "
+             "plus 2 concrete kernel geometries (3-4 pixels incl. a repeated pixel, zero / repeated / non-integer baselines) with native cos/sin, tolerance 1e-9. "
              "TransformerDFT class: every mask (>=1 unmasked pixel) of shape 2x2 by forking, preload on/off, image (slim- and native-stored Array2D), "
              "signed mapping matrix (2 columns), directly constructed and arithmetic-derived Visibilities symbolic; geometry either symbolic "
              "(origin and K=2 baselines symbolic, pixel scales (0.5, 2.0); exact obligations) or concrete (3 geometries with anisotropic scales, "
@@ -349,7 +350,8 @@ def POST_INSTALL():
             # one unconstrained real per distinct canonical argument (syntactic Ackermannisation without congruence
             # axioms): more general than an uninterpreted function, so 'unsat' carries over; keeps queries in QF_NRA (nlsat)
             import hashlib
-            return V.SymReal(z3.Real("%s!%s" % (name, hashlib.md5(tc.sexpr().encode()).hexdigest()[:12])))
+            h = hashlib.md5(tc.sexpr().encode()).hexdigest()[:12]
+            return V.SymReal(z3.Real("%s!%s" % (name, h)))
         return orig_ufunc(self, name, tc)
 
     explore.Explorer.ufunc = ufunc
@@ -484,7 +486,7 @@ def _tu():
 # =============================================================================================================
 # (A) kernels, geometry fully symbolic (cos / sin uninterpreted)
 
-def body_kernels(inp, P, K, S):
+def body_kernels(inp, P, K, S, adjointness=True):
     tu = _tu()
     grid = parr(np.asarray(inp["grid"]).reshape(P, 2))
     uv = parr(np.asarray(inp["uv"]).reshape(K, 2))
@@ -520,7 +522,7 @@ def body_kernels(inp, P, K, S):
             A["tmm_preload.re"], A["tmm_preload.im"] = _split(t2)
             E["tmm_preload.re"], E["tmm_preload.im"] = tr, ti
     # adjointness of the two real outputs (no reference involved): Re<v, A I> = <A^H v, I>
-    if not isinstance(v1, hx.Raised) and not isinstance(img, hx.Raised):
+    if adjointness and not isinstance(v1, hx.Raised) and not isinstance(img, hx.Raised):
         lhs, rhs = 0.0, 0.0
         vr1, vi1 = _split(v1)
         for k in range(K):
@@ -589,7 +591,8 @@ def case_kernels(ctx, P, K, S):
     inputs = {"grid": V.real_array("g", (P, 2)), "uv": V.real_array("uv", (K, 2)), "image": V.real_array("i", (P,)),
               "M": V.real_array("m", (P, S)), "vis": V.real_array("v", (K, 2))}
     g, uv = inputs["grid"], inputs["uv"]
-    _parity_axioms(ctx, [theta(g[p, 0], g[p, 1], uv[k, 0], uv[k, 1]) for p in range(P) for k in range(K)])
+    ths = [theta(g[p, 0], g[p, 1], uv[k, 0], uv[k, 1]) for p in range(P) for k in range(K)]
+    _parity_axioms(ctx, ths)
     known = _known_matrix(inputs["M"], ["tmm_direct.re", "tmm_direct.im", "tmm_preload.re", "tmm_preload.im"])
     hx.run_body(ctx, body_kernels, inputs, {"P": P, "K": K, "S": S}, validate_every=0, known=known)
     ctx.twin()          # reachability twin (encoding validation against native runs happens in the concrete-geometry cases:
@@ -722,9 +725,9 @@ def _bounded(ctx, arrs, bound=1000):
 
 # concrete geometries: (pixel scales, origin, baselines); zero and repeated baselines included
 GEOMS = [
-    {"scales": (1.0, 2.0), "origin": (0.5, -1.0), "uv": [[0.0, 0.0], [1.0e5, -2.0e5], [1.0e5, -2.0e5], [3.0e4, 5.0e4]]},
-    {"scales": (0.25, 0.25), "origin": (0.0, 0.0), "uv": [[-4.0e5, 1.5e5], [0.0, 7.0e4]]},
-    {"scales": (3.0, 0.5), "origin": (-2.0, 7.5), "uv": [[2.5e4, 2.5e4], [2.5e4, 2.5e4], [-6.0e4, 0.0]]},
+    {"scales": (1.0, 2.0), "origin": (0.5, -1.0), "uv": [[0.0, 0.0], [100000.5, -200000.25], [100000.5, -200000.25], [30000.75, 50000.5]]},
+    {"scales": (0.25, 0.25), "origin": (0.0, 0.0), "uv": [[-400000.5, 150000.25], [0.0, 70000.75]]},
+    {"scales": (3.0, 0.5), "origin": (-2.0, 7.5), "uv": [[25000.5, 25000.5], [25000.5, 25000.5], [-60000.25, 0.0]]},
 ]
 
 
@@ -756,7 +759,8 @@ def case_class_symbolic(ctx, H, W, K, S, preload, scales=(0.5, 2.0), zero_baseli
               "va": V.real_array("va", (K, 2)), "vb": V.real_array("vb", (K, 2))}
     pos = _positions(mask)
     gy, gx = ref_centres_radians(H, W, pos, oy, ox, sy, sx)
-    _parity_axioms(ctx, [theta(gy[p], gx[p], uv[k, 0], uv[k, 1]) for p in range(len(pos)) for k in range(K)])
+    ths = [theta(gy[p], gx[p], uv[k, 0], uv[k, 1]) for p in range(len(pos)) for k in range(K)]
+    _parity_axioms(ctx, ths)
     hx.run_body(ctx, body_class, inputs, {"H": H, "W": W, "K": K, "S": S, "preload": preload},
                 known=_known_class(inputs, preload), validate_every=0)
     ctx.twin()
@@ -863,7 +867,24 @@ def case_inversion_real(ctx, H, W, K, S1, S2, preload, reg, scales=(0.5, 2.0)):
     ctx.twin()
 
 
-BODIES = {"case_kernels": body_kernels, "case_class_concrete": body_class, "case_class_symbolic": body_class,
+# concrete kernel-level geometries (radians, wavelengths): generic non-integer values, a zero and a repeated baseline, a repeated pixel
+KGEOMS = [
+    {"grid": [[1.0e-5, -2.5e-6], [3.2e-6, 4.1e-6], [-7.7e-6, 0.0]], "uv": [[12345.5, -54321.25], [0.0, 0.0], [99999.0, 1000.5]]},
+    {"grid": [[0.0, 0.0], [4.8e-6, 4.8e-6], [4.8e-6, 4.8e-6], [-9.6e-6, 1.2e-6]], "uv": [[2.5e5, 2.5e5], [2.5e5, 2.5e5]]},
+]
+
+
+def case_kernels_concrete(ctx, gid, S):
+    geo = KGEOMS[gid]
+    P, K = len(geo["grid"]), len(geo["uv"])
+    inputs = {"grid": np.array(geo["grid"], dtype=float), "uv": np.array(geo["uv"], dtype=float), "image": V.real_array("i", (P,)),
+              "M": V.real_array("m", (P, S)), "vis": V.real_array("v", (K, 2))}
+    _bounded(ctx, [inputs["image"], inputs["M"], inputs["vis"]])
+    known = _known_matrix(inputs["M"], ["tmm_direct.re", "tmm_direct.im", "tmm_preload.re", "tmm_preload.im"])
+    hx.run_body(ctx, body_kernels, inputs, {"P": P, "K": K, "S": S, "adjointness": False}, tol=1e-9, validate_every=1, known=known)
+
+
+BODIES = {"case_kernels": body_kernels, "case_kernels_concrete": body_kernels, "case_class_concrete": body_class, "case_class_symbolic": body_class,
           "case_inversion_stub": body_inversion, "case_inversion_real": body_inversion}
 
 
@@ -876,6 +897,8 @@ def cases(tier):
     q = tier == "quick"
     for (P, K, S) in ([(2, 2, 2), (3, 2, 2)] if q else [(2, 2, 2), (3, 2, 2), (3, 3, 3), (4, 3, 2), (4, 2, 3)]):
         out.append(("case_kernels", {"P": P, "K": K, "S": S}, UF))
+    for gid in range(len(KGEOMS)):
+        out.append(("case_kernels_concrete", {"gid": gid, "S": 2}))
     if q:
         for pre in (True, False):
             out.append(("case_class_concrete", {"H": 2, "W": 2, "gid": 0, "S": 2, "preload": pre}))
@@ -903,18 +926,17 @@ def cases(tier):
 def replay(cand):
     fn = cand["case_fn"]
     kw = dict(cand["case_kwargs"])
-    if fn == "case_class_concrete":
+    if fn == "case_kernels_concrete":
+        geo = KGEOMS[kw.pop("gid")]
+        kw.update(P=len(geo["grid"]), K=len(geo["uv"]), adjointness=False)
+    elif fn == "case_class_concrete":
         kw["K"] = len(GEOMS[kw.pop("gid")]["uv"])
     elif fn == "case_class_symbolic":
         kw.pop("scales", None)
         kw.pop("zero_baseline", None)
-        kw.pop("steer", None)
     elif fn == "case_inversion_stub":
         kw.update(H=1, W=2, preload=False, mode="stub")
     elif fn == "case_inversion_real":
         kw.pop("scales", None)
-        kw.pop("steer", None)
         kw["mode"] = "real"
-    elif fn == "case_kernels":
-        kw.pop("steer", None)
     return hx.replay_body(BODIES[fn], dict(cand, case_kwargs=kw))
